@@ -20,6 +20,8 @@
 #include "algorithms/tbfalgorithmutils.hpp"
 #include "algorithms/sequential/tbfalgorithm.hpp"
 #include "algorithms/sequential/tbfalgorithmtsm.hpp"
+#include "algorithms/periodic/tbfalgorithmperiodictoptree.hpp"
+#include "utils/tbfperiodicshifter.hpp"
 
 extern "C" {
 long irsym_choose(long n);                 // fork n ways, returns 0..n-1
@@ -166,7 +168,7 @@ struct Registry {
             r.idx = hdr.spaceIndex; r.nb = hdr.nbParticles; r.pidx = pidx;
             for(int d = 0; d < DIM; ++d) r.coord[d] = hdr.boxCoord[d];
             for(int v = 0; v < DIM + NEXTRA; ++v) r.data[v] = data[v];
-            r.rhs0 = NRHS ? static_cast<const void*>(rhs[0]) : nullptr;
+            if constexpr (NRHS > 0) r.rhs0 = static_cast<const void*>(rhs[0]); else r.rhs0 = nullptr;
         });
     }
     const CellRec* byM(const void* p) const { for(long i = 0; i < nbCells; ++i) if(cells[i].m == p) return &cells[i]; return nullptr; }
@@ -188,8 +190,18 @@ enum Aid { A_RHS = 1, A_SEEN = 2, A_MULTIPOLE = 3, A_LOCAL = 4,
            G_M2L_TGT, G_M2L_SRC, G_M2L_OFFSET, G_M2L_SEP, G_M2L_N, G_L2L_PARENT, G_L2L_CHILD, G_L2L_CODE, G_L2L_GEOM, G_L2L_N,
            G_L2P_CELL, G_L2P_LEAF, G_P2P_SRC, G_P2P_TGT, G_P2P_OFFSET, G_P2P_ADJ, G_P2P_N, G_P2PI_LEAF, G_DATA_ROW, G_LEVEL };
 
+// periodic top tree: the operators are called on "virtual" cells above the root; they are identified by address, level by level
+struct TopState { long k; const void* vM[24]; const void* vL[24]; long nM2M; long nM2L; long nL2L; };
+static TopState gTop;
+enum AidTop { V_M2M_LEVEL = 60, V_M2M_CHILDREN, V_M2L_SRC, V_M2L_WINDOW, V_M2L_LEVEL, V_L2L_PARENT, V_L2L_CHILDREN, V_COUNTS, V_REPET, V_SHIFT };
+
 static inline long wrapDelta(long delta, long lim){   // periodic: representative of delta modulo lim in (-lim/2, lim/2]
     long r = delta % lim; if(r < 0) r += lim; return r;
+}
+
+// rhs row r accumulates (r+1) * value, so that rows cannot be confused with each other
+template <class PR> static inline void addRhs(PR& rhs, long i, U v){
+    for(int r = 0; r < NRHS; ++r) rhs[r][i] += U(r + 1) * v;
 }
 
 template <class RealType_T, class SpaceIndexType_T>
@@ -236,7 +248,23 @@ public:
 
     template <class Sym, class CC, class C>
     void M2M(const Sym& hdr, const long level, const CC& low, C& up, const long pos[], const long n) const {
-        if(gK.geom){
+        if(gK.geom && gK.periodic && gReg.byM(&up) == nullptr){
+            // virtual level: level k+3 gathers the level-1 cells of the real tree, the levels above gather 2^Dim copies of the level below
+            const long top = gTop.k + 3;
+            irsym_assert(3 <= level && level <= top && level < 24 && gTop.vM[level] == nullptr, V_M2M_LEVEL);
+            gTop.vM[level] = &up; gTop.nM2M += 1;
+            bool ok = n >= 1 && n <= (1L << DIM);
+            if(level == top){
+                for(long i = 0; i < n && ok; ++i){ const CellRec* c = gReg.byM(&low[i].get()); ok = ok && c != nullptr && c->level == 1 && pos[i] == (c->idx & ((1L << DIM) - 1));
+                    for(long j = 0; j < i; ++j) ok = ok && &low[j].get() != &low[i].get(); }
+            }
+            else{
+                ok = ok && n == (1L << DIM);
+                for(long i = 0; i < n && ok; ++i){ ok = ok && static_cast<const void*>(&low[i].get()) == gTop.vM[level + 1] && pos[i] == i; }
+            }
+            irsym_assert(ok, V_M2M_CHILDREN);
+        }
+        else if(gK.geom){
             const CellRec* p = gReg.byM(&up);
             irsym_assert(n >= 1 && n <= (1L << DIM), G_M2M_N);
             irsym_assert(p != nullptr && p->level == level && p->idx == hdr.spaceIndex, G_M2M_PARENT);
@@ -257,7 +285,24 @@ public:
 
     template <class Sym, class CC, class C>
     void M2L(const Sym& hdr, const long level, const CC& src, const long pos[], const long n, C& tgt) const {
-        if(gK.geom){
+        if(gK.geom && gK.periodic && gReg.byL(&tgt) == nullptr){
+            const long top = gTop.k + 3;
+            irsym_assert(3 <= level && level <= top && level < 24 && gTop.vL[level] == nullptr, V_M2L_LEVEL);
+            gTop.vL[level] = &tgt; gTop.nM2L += 1;
+            bool srcok = true, win = true;
+            const long lo = gTop.k == 0 ? -3 : (level == 3 ? -3 : -2), hi = gTop.k == 0 ? 3 : (level == 3 ? 2 : 3);
+            long expectN = 1, near = 1; for(int d = 0; d < DIM; ++d){ expectN *= (hi - lo + 1); near *= 3; }
+            win = n == expectN - near;
+            for(long i = 0; i < n; ++i){
+                srcok = srcok && static_cast<const void*>(&src[i].get()) == gTop.vM[level];
+                const auto rel = Idx::getRelativePosFromInteractionIndex(pos[i]);
+                long maxd = 0; for(int d = 0; d < DIM; ++d){ win = win && lo <= rel[d] && rel[d] <= hi; const long a = rel[d] < 0 ? -rel[d] : rel[d]; if(a > maxd) maxd = a; }
+                win = win && maxd >= 2;
+                for(long j = 0; j < i; ++j) win = win && pos[j] != pos[i];
+            }
+            irsym_assert(srcok, V_M2L_SRC); irsym_assert(win, V_M2L_WINDOW);
+        }
+        else if(gK.geom){
             const CellRec* t = gReg.byL(&tgt);
             irsym_assert(n >= 1, G_M2L_N);
             irsym_assert(t != nullptr && t->level == level && t->idx == hdr.spaceIndex, G_M2L_TGT);
@@ -293,7 +338,19 @@ public:
 
     template <class Sym, class C, class CC>
     void L2L(const Sym& hdr, const long level, const C& up, CC& low, const long pos[], const long n) const {
-        if(gK.geom){
+        if(gK.geom && gK.periodic && gReg.byL(&up) == nullptr){
+            const long top = gTop.k + 3;
+            irsym_assert(3 <= level && level <= top && level < 24 && static_cast<const void*>(&up) == gTop.vL[level], V_L2L_PARENT);
+            gTop.nL2L += 1;
+            bool ok = n >= 1;
+            if(level == top){
+                for(long i = 0; i < n && ok; ++i){ const CellRec* c = gReg.byL(&low[i].get()); ok = ok && c != nullptr && c->level == 1 && pos[i] == (c->idx & ((1L << DIM) - 1));
+                    for(long j = 0; j < i; ++j) ok = ok && &low[j].get() != &low[i].get(); }
+            }
+            else ok = ok && n == 1 && static_cast<const void*>(&low[0].get()) == gTop.vL[level + 1] && pos[0] == 0;
+            irsym_assert(ok, V_L2L_CHILDREN);
+        }
+        else if(gK.geom){
             const CellRec* p = gReg.byL(&up);
             irsym_assert(n >= 1 && n <= (1L << DIM), G_L2L_N);
             irsym_assert(p != nullptr && p->level == level && p->idx == hdr.spaceIndex, G_L2L_PARENT);
@@ -320,7 +377,7 @@ public:
             checkLeafArgs(hdr, idx, data, n, G_L2P_LEAF);
         }
         if(gK.logRun >= 0) for(long i = 0; i < n; ++i) irsym_log(gK.logRun, OP_L2P, HEIGHT - 1, idx[i], hdr.spaceIndex, 0);
-        for(long i = 0; i < n; ++i) rhs[0][i] += leaf[0];
+        for(long i = 0; i < n; ++i) addRhs(rhs, i, leaf[0]);
     }
 
     template <class Sym, class PV, class PR>
@@ -340,6 +397,27 @@ public:
             }
             irsym_assert(off, G_P2P_OFFSET);
             irsym_assert(maxd == 1 && (gK.periodic || shdr.spaceIndex != thdr.spaceIndex), G_P2P_ADJ);
+#ifdef CHECK_SHIFTER
+            if(gK.periodic){
+                // the documented shifter must displace the sources by the whole multiple of the box width that puts their leaf at target + offset
+                const Cfg cfgS = makeCfg(); const Idx spaceS(cfgS);
+                const auto shift = TbfPeriodicShifter<Real, Idx>::Neighbor::GetShiftCoef(shdr, thdr, spaceS, code);
+                const bool need = TbfPeriodicShifter<Real, Idx>::Neighbor::NeedToShift(shdr, thdr, spaceS, code);
+                bool sh = true, any = false;
+                for(int d = 0; d < DIM; ++d){
+                    const Real w = cfgS.getBoxWidths()[d];
+                    const long m = shift[d] == w ? 1 : shift[d] == -w ? -1 : shift[d] == Real(0) ? 0 : 99;
+                    sh = sh && m != 99 && shdr.boxCoord[d] + m * Side == thdr.boxCoord[d] + rel[d];
+                    any = any || m != 0;
+                }
+                irsym_assert(sh && need == any, V_SHIFT);
+                auto dup = TbfPeriodicShifter<Real, Idx>::Neighbor::DuplicatePositionsAndApplyShift(shdr, thdr, spaceS, code, sdata, ns);
+                bool dupok = true;
+                for(long i = 0; i < ns; ++i) for(int d = 0; d < DIM; ++d) dupok = dupok && dup[d][i] == sdata[d][i] + shift[d];
+                irsym_assert(dupok, V_SHIFT);
+                TbfPeriodicShifter<Real, Idx>::Neighbor::FreePositions(dup);
+            }
+#endif
         }
         if(gK.logRun >= 0){
             for(long i = 0; i < nt; ++i) for(long j = 0; j < ns; ++j){
@@ -351,8 +429,8 @@ public:
         U st = 0, ss = 0;
         for(long i = 0; i < ns; ++i) ss += gP.w[sidx[i]];
         for(long i = 0; i < nt; ++i) st += gP.w[tidx[i]];
-        for(long i = 0; i < nt; ++i) trhs[0][i] += ss;
-        for(long i = 0; i < ns; ++i) srhs[0][i] += st;
+        for(long i = 0; i < nt; ++i) addRhs(trhs, i, ss);
+        for(long i = 0; i < ns; ++i) addRhs(srhs, i, st);
     }
 
     template <class Sym, class PV, class PR>
@@ -360,7 +438,7 @@ public:
         if(gK.geom) checkLeafArgs(hdr, idx, data, n, G_P2PI_LEAF);
         if(gK.logRun >= 0) for(long i = 0; i < n; ++i) for(long j = 0; j < n; ++j) if(i != j) irsym_log(gK.logRun, OP_P2PINNER, HEIGHT - 1, idx[i], idx[j], 0);
         U tot = 0; for(long i = 0; i < n; ++i) tot += gP.w[idx[i]];
-        for(long i = 0; i < n; ++i) rhs[0][i] += tot - gP.w[idx[i]];
+        for(long i = 0; i < n; ++i) addRhs(rhs, i, tot - gP.w[idx[i]]);
     }
 };
 using Kernel = VKernel<Real, Idx>;
